@@ -46,6 +46,7 @@ class Unit:
         self.generated = None
         self.twins = None
         self.audits = []
+        self.anchors_lost = []
 
     def src(self, rel):
         if rel not in self.sources:
@@ -190,21 +191,27 @@ class Unit:
         for sec in sections:
             text = '\n'.join(sec['text'])
             hints += 1
-            if sec['kind'] == 'top':
-                b.insert_top(text)
-            elif sec['kind'] == 'tail':
-                b.insert_tail(text)
-            elif sec['kind'] == 'loop':
-                a = sec['arg'].split()
-                it = None
-                for x in a[1:]:
-                    if x.startswith('iter='):
-                        it = x[5:]
-                b.insert_loop(int(a[0]), text, it)
-            elif sec['kind'] == 'after':
-                b.insert_after(sec['arg'], text, sec['ordinal'])
-            elif sec['kind'] == 'before':
-                b.insert_before(sec['arg'], text, sec['ordinal'])
+            try:
+                if sec['kind'] == 'top':
+                    b.insert_top(text)
+                elif sec['kind'] == 'tail':
+                    b.insert_tail(text)
+                elif sec['kind'] == 'loop':
+                    a = sec['arg'].split()
+                    it = None
+                    for x in a[1:]:
+                        if x.startswith('iter='):
+                            it = x[5:]
+                    b.insert_loop(int(a[0]), text, it)
+                elif sec['kind'] == 'after':
+                    b.insert_after(sec['arg'], text, sec['ordinal'])
+                elif sec['kind'] == 'before':
+                    b.insert_before(sec['arg'], text, sec['ordinal'])
+            except ExtractError as e:
+                # a proof hint lost its anchor: the hint is dropped (hints never change what is proved, only
+                # whether the solver finds the proof).  A failure in this unit is then only reported as a
+                # violation when the witness search exhibits a concrete failing input on the real code.
+                self.anchors_lost.append('%s: %s' % (path, str(e)))
         new_body = b.apply()
         start = sum(len(x) for x in out)
         header = '// ---- extracted fn %s from %s:%d (body sha256 %s)\n' % (path, rel, s.line_of(s.tok(f['fn_ci'])[2]), sha256(body_text)[:16])
